@@ -24,6 +24,7 @@ from .engine import (
     sv_real,
     sv_str,
 )
+from .engine import mod_covers
 from .source import INDEX
 
 
@@ -147,6 +148,12 @@ def call_value(ex: Exec, fn: SV, node: ast.Call) -> SV:
             return ex.eval(lam.body)
         finally:
             ex.locals = saved
+    if fn.ty.kind == "raw" and isinstance(fn.aux, tuple) and fn.aux[0] == "wrapped":
+        # the method wrapped by a decorator, called as method(*args, **kwargs)
+        for a in node.args:
+            if not isinstance(a, ast.Starred):
+                raise Unsupported("decorator wrapper passes modified arguments")
+        return ex.run_wrapped(fn.aux[1], fn.aux[2])
     if fn.ty.kind == "raw" and isinstance(fn.aux, tuple) and fn.aux[0] == "partial":
         _, q, pargs, pkw = fn.aux
         args, kwargs = eval_args(ex, node)
@@ -315,10 +322,20 @@ def call_repo(ex: Exec, qualname: str, args: list[SV], kwargs: dict[str, SV], no
     fi = INDEX.func(qualname)
     bound = bind_call(ex, fi.node, args, kwargs, fi.module)
     c = ex.ver.contracts.get(qualname)
-    if c is None or qualname in ex.c.inline:
-        if qualname in ex.c.inline or qualname.split(":")[1] in ex.c.inline:
+    if c is None or qualname in ex.c.inline or qualname.split(":")[1] in ex.c.inline:
+        # A callee without a contract is verified in context (its body is entered):
+        # extracting a private helper must not turn into an alarm, and a helper
+        # that breaks the caller's contract is still noticed.
+        depth = getattr(ex, "inline_depth", 0)
+        if depth >= 4:
+            raise Unsupported(f"inlining depth exceeded at {qualname}")
+        if c is None:
+            ex.ver.inlined.add(f"{qualname} (no contract; entered from {ex.c.target})")
+        ex.inline_depth = depth + 1
+        try:
             return inline_call(ex, fi, bound)
-        raise Unsupported(f"no contract for callee {qualname} (called from {ex.fi.qualname}, line {ex.cur_line})")
+        finally:
+            ex.inline_depth = depth
     return apply_contract(ex, c, fi, bound)
 
 
@@ -330,16 +347,13 @@ def inline_call(ex: Exec, fi, bound: dict[str, SV]) -> SV:
     ex.loop_counter = 0
     try:
         try:
-            for d in fi.decorators:
-                if d == "_invalidate_cache":
-                    ex.params, p0 = bound, ex.params
-                    try:
-                        ex.exec_decorator_prefix(d)
-                    finally:
-                        ex.params = p0
-                elif d not in ("property", "staticmethod", "classmethod"):
-                    raise Unsupported(f"decorator {d} on inlined {fi.qualname}")
-            ex.exec_block(fi.node.body)
+            decos = [d for d in fi.decorators if d not in ("property", "staticmethod", "classmethod")]
+            if decos:
+                if len(decos) > 1:
+                    raise Unsupported(f"stacked decorators on inlined {fi.qualname}")
+                ex.exec_decorated(decos[0], fi, dict(bound))
+            else:
+                ex.exec_block(fi.node.body)
             return sv_none()
         except _Return as r:
             return r.value
@@ -399,7 +413,7 @@ def _havoc_and_assume(ex: Exec, c, fi, env, call_heap, known, raising: str | Non
             if name == "cls":
                 return arr
             for k, (mid, mname) in enumerate(mods):
-                if mname == "*" or mname == name:
+                if mod_covers(mname, name):
                     fr = z3.Const(f"hv{evno}_{k}_{name.replace(':', '_')}", S.heap_sort(name).range())
                     arr = z3.Store(arr, mid, fr)
             return arr
